@@ -37,15 +37,15 @@ type linB struct {
 	U bigx.Big `json:"u"`
 }
 type linEvent struct {
-	N         int    `json:"n"`
-	Q         linQ   `json:"q"`
-	Bs        []linB `json:"bs"`
-	IdsPre    []int  `json:"idsPre"`
-	IdsPost   []int  `json:"idsPost"`
-	ContentOK bool   `json:"contentOK"`
-	Res       string `json:"res"`
-	Msg       string `json:"msg"`
-	Unit      int64  `json:"unit"`
+	N         int     `json:"n"`
+	Q         linQ    `json:"q"`
+	Bs        []linB  `json:"bs"`
+	IdsPre    []int   `json:"idsPre"`
+	IdsPost   []int   `json:"idsPost"`
+	ContentOK bool    `json:"contentOK"`
+	Res       string  `json:"res"`
+	Msg       string  `json:"msg"`
+	Unit      int64   `json:"unit"`
 	Raw       []int64 `json:"raw"`
 }
 
